@@ -2,7 +2,8 @@
 From Coq Require Import String.
 From Coq Require Import ZArith List Bool.
 From LasV Require Import Lib.Base Lib.Layout Gen.GenHeaderLayout Gen.GenFormatBits Gen.GenDims Model.Las Model.LasSpec
-  Proofs.HeaderLen Proofs.VlrProofs Proofs.HeaderProofs Proofs.WriterProofs Proofs.RoundTripProofs.
+  Model.WriterAlias Proofs.HeaderLen Proofs.VlrProofs Proofs.HeaderProofs Proofs.WriterProofs Proofs.RoundTripProofs
+  Proofs.WriterAliasProofs.
 Import ListNotations.
 Open Scope list_scope.
 Open Scope Z_scope.
@@ -46,6 +47,78 @@ Theorem C04_rewrite_same_offset : forall h vl h' bs, enc_header h vl true = Ok (
 Proof. exact enc_header_same_size. Qed.
 Print Assumptions C04_rewrite_same_offset.
 
+(* ---------------------------------------------------------------------------------------------------------------- *)
+(* the same writer inside a session in which the caller keeps using ITS objects (Model/WriterAlias.v)                *)
+(* ---------------------------------------------------------------------------------------------------------------- *)
+
+(* "raises and leaves the file unchanged", for whole histories: the writer after ANY sequence of calls is the writer
+   after the accepted calls alone (all of which are accepted again) *)
+Theorem C04_refusals_leave_no_trace : forall ap ops s,
+  fst (wrun ap s ops) = fst (wrun ap s (accepted_wops ap s ops))
+  /\ all_ok (snd (wrun ap s (accepted_wops ap s ops))).
+Proof. exact refusals_leave_no_trace. Qed.
+Print Assumptions C04_refusals_leave_no_trace.
+
+(* the caller's in-place edits of its header (any field, the VLR list, the global encoding, re-binding the point format) and
+   of every PointFormat object no chunk of the session is built on can be erased: same writer state (file), same outcomes *)
+Theorem C04_caller_edits_irrelevant : forall ap ops st,
+  forallb (edit_avoids (chunk_addrs ops)) (edits_of ops) = true ->
+  ss_w (fst (plain_run ap st ops)) = ss_w (fst (plain_run ap st (strip_edits ops)))
+  /\ snd (plain_run ap st ops) = snd (plain_run ap st (strip_edits ops)).
+Proof. exact caller_edits_irrelevant. Qed.
+Print Assumptions C04_caller_edits_irrelevant.
+
+(* an accepted session - chunks, optional EVLRs, close, with ANY caller edits in between - leaves byte for byte the
+   one-shot file of the header AS IT WAS WHEN THE WRITER WAS OPENED *)
+Theorem C04_session_writes_header_at_open : forall ap, ap_ok ap -> forall c d st0 ops chunks evl st outs,
+  fmt_at c (cw_hfmt c) = Some d ->
+  sopen c = Ok st0 ->
+  resolve c d ops = chunk_ops chunks evl ->
+  plain_run ap st0 ops = (st, outs) ->
+  all_ok outs ->
+  file_of ap (hdr_of (cw_h c) d) (cw_vlrs c) (fd_id d) (concat chunks) evl = Ok (w_file (ss_w st)).
+Proof. exact session_writes_header_at_open. Qed.
+Print Assumptions C04_session_writes_header_at_open.
+
+(* no writer operation modifies the caller's objects: after the session they are what the caller's own edits made them *)
+Theorem C04_caller_untouched : forall ap ops st,
+  ss_c (fst (plain_run ap st ops)) = fold_left apply_cedit (edits_of ops) (ss_c st)
+  /\ ss_d (fst (plain_run ap st ops)) = ss_d st.
+Proof. exact caller_untouched. Qed.
+Print Assumptions C04_caller_untouched.
+
+(* the format check is by VALUE at the time of the call: a chunk whose format object currently differs is refused ... *)
+Theorem C04_differing_format_refused : forall ap st recs a, recs <> [] ->
+  chunk_same (ss_c st) (ss_d st) a = false ->
+  sstep ap st (SChunk recs a) = (st, Some (Err ELaspy)).
+Proof. exact differing_format_refused. Qed.
+Print Assumptions C04_differing_format_refused.
+
+(* ... even when it is the very OBJECT an earlier accepted chunk was built on, changed in place since ... *)
+Theorem C04_mutated_format_object_refused : forall ap st a d' recs, recs <> [] ->
+  fdesc_eqb d' (ss_d st) = false ->
+  let st1 := fst (sstep ap st (SEdit (CFmt a d'))) in
+  sstep ap st1 (SChunk recs a) = (st1, Some (Err ELaspy)).
+Proof. exact mutated_format_object_refused. Qed.
+Print Assumptions C04_mutated_format_object_refused.
+
+(* ... and an equal value is treated exactly like the writer's own format, whichever object carries it *)
+Theorem C04_equal_format_value_accepted : forall ap st recs a x,
+  fmt_at (ss_c st) a = Some x -> fdesc_eqb x (ss_d st) = true ->
+  sstep ap st (SChunk recs a)
+  = (mkSS (ss_c st) (fst (wstep ap (ss_w st) (WPoints recs true))) (ss_d st), Some (snd (wstep ap (ss_w st) (WPoints recs true)))).
+Proof. exact equal_format_value_accepted. Qed.
+Print Assumptions C04_equal_format_value_accepted.
+
+(* `with writer:` left by the first refused call or by the caller's own exception: __exit__ closes, and the file is that
+   of the accepted calls followed by close *)
+Theorem C04_with_block_left_by_exception : forall ap st ops,
+  let pre := resolve (ss_c st) (ss_d st) (executed ap st ops) in
+  ss_w (fst (fst (with_run ap st ops)))
+  = fst (wrun ap (ss_w st) (accepted_wops ap (ss_w st) pre ++ [WClose])).
+Proof. exact with_block_left_by_exception. Qed.
+Print Assumptions C04_with_block_left_by_exception.
+
 (* non-vacuity: a concrete 1.2 header, two chunks and an empty one, accepted, equal to the one-shot file *)
 Definition ex_h : assoc := [("version.major", VInt 1); ("version.minor", VInt 2); ("uuid", VBytes (repeat 0 16));
   ("system_identifier", VBytes [79; 84]); ("generating_software", VBytes []);
@@ -57,6 +130,25 @@ Example C04_nonvacuous :
   | Ok s0 => let '(s, outs) := wrun ex_ap s0 (chunk_ops [[ex_r 5; ex_r 9]; []; [ex_r 2]] []) in
              forallb is_ok outs && match file_of ex_ap ex_h [] 0 [ex_r 5; ex_r 9; ex_r 2] [] with
                                    | Ok f => list_eqb f (w_file s) && (len f =? 227 + 60) | Err _ => false end
+  | Err _ => false
+  end = true.
+Proof. vm_compute. reflexivity. Qed.
+
+(* non-vacuity of the aliasing theorems: the caller changes an offset, the VLR list and - in place - the header's own format
+   object between two accepted chunks, a record built on the changed object is refused, the block is then left by the
+   caller's exception: the file is the one-shot file of the two accepted chunks under the header as it was at open *)
+Definition ex_d : fdesc := mkFD 0 20 [].
+Definition ex_c : cworld := mkCW ex_h [] 0 [ex_d; ex_d].
+Definition ex_ops : list sop :=
+  [SChunk [ex_r 5; ex_r 9] 1; SEdit (CSet "offsets[0]" (VInt 4611686018427387904)); SEdit (CVlrs [mkVlr [65] 7 [] [1; 2; 3]]);
+   SEdit (CFmt 0 (mkFD 0 22 [1])); SChunk [ex_r 2] 1; SChunk [ex_r 7 ++ [0; 0]] 0; SChunk [ex_r 8] 1].
+Example C04_alias_nonvacuous :
+  match sopen ex_c with
+  | Ok st0 => let '(st, outs, r) := with_run ex_ap st0 ex_ops in
+              match file_of ex_ap (hdr_of ex_h ex_d) [] 0 [ex_r 5; ex_r 9; ex_r 2] [] with
+              | Ok f => list_eqb f (w_file (ss_w st)) && (len outs =? 3) && is_ok r
+                        && negb (list_eqb (map v_rid (cw_vlrs (ss_c st))) [])
+              | Err _ => false end
   | Err _ => false
   end = true.
 Proof. vm_compute. reflexivity. Qed.
